@@ -151,9 +151,9 @@ Proof.
   destruct (lr_pick (bc_longest cfg) _) as [kn|] eqn:E.
   - left. split; [reflexivity|eauto].
   - right. split; [reflexivity|].
-    destruct (bc_partial cfg && memb STOP (map fst (sorted_of T (cx_state (if bc_skip_ws cfg then skip inp mt cx else cx))))).
-    + left. reflexivity.
-    + right. eauto.
+    destruct (cx_layout (if bc_skip_ws cfg then skip inp mt cx else cx));
+      (destruct (bc_partial cfg && memb STOP (map fst (sorted_of T (cx_state (if bc_skip_ws cfg then skip inp mt cx else cx)))));
+       [left; reflexivity|right; eauto]).
 Qed.
 
 Definition Eoff (cx : ctxt) : nat := p_off (sp_end (cx_span cx)).
